@@ -1283,4 +1283,65 @@ example : let s1 : Frame := { idx := [1, 2, 4], cols := [("", [some 1, Option.no
      | .error _ => []) = [Option.none, some [2, 3], some [2, 3]] := by
   refine ⟨by decide, rfl, by decide, by decide⟩
 
+/-! ### a NaN the series HOLDS at a surviving timestamp (review t4 2.1; the declared reading of clause 2)
+
+The statement's "at each surviving timestamp a series keeps exactly its original value" is read for VALUES: a NaN cell is
+not an observation.  With a fill method a NaN held at a timestamp the series has is filled exactly like a timestamp it
+lacked - the as-of join runs over the non-NaN observations (`_nona(ts).reindex(index, method)`).  Without a fill method
+the NaN stays (`reindex_keep`).  The theorems below pin that reading against C12's independent `ffill` / `bfill`. -/
+
+/-- **own NaN, ffill**: the cell of column `c` at a timestamp `t = f.idx[i]` the frame HAS, where the column holds NaN,
+becomes the column's last non-NaN observation before `t` (`lastObs`; positional reading: `last_observation`) -/
+theorem reindex_fill_own_nan (f : Frame) (idx : List Int) (hs : f.Sorted) (j k : Nat) (c : String × Col) (t : Int)
+    (hc : f.cols[j]? = some c) (hk : idx[k]? = some t) :
+    ∃ r, (reindexFrame f idx (some .ffill)).cols[j]? = some (c.1, r) ∧ r[k]? = some (lastObs f.idx c.2 t) := by
+  refine ⟨idx.map (lastObs f.idx c.2), ?_, by simp [hk]⟩
+  rw [reindex_ffill f idx hs]; simp [hc]
+
+/-- the reading made visible: the series `[5, NaN]` on the days `0, 1`, reindexed with ffill onto ITS OWN index, is `[5, 5]` -
+the NaN it held on day 1 is gone although day 1 "survives" -/
+example : reindexFrame ⟨[0, 1], [("a", [some 5, Option.none])]⟩ [0, 1] (some .ffill) = ⟨[0, 1], [("a", [some 5, some 5])]⟩ := by decide
+example : reindexFrame ⟨[0, 1], [("a", [Option.none, some 5])]⟩ [0, 1] (some .bfill) = ⟨[0, 1], [("a", [some 5, some 5])]⟩ := by decide
+example : reindexFrame ⟨[0, 1], [("a", [some 5, Option.none])]⟩ [0, 1] Option.none = ⟨[0, 1], [("a", [some 5, Option.none])]⟩ := by decide
+
+/-- **`df_reindex(x, x.index, 'ffill')` IS `df_fillna(x, 'ffill')`** (and `bfill`): reindexing a frame with a strictly
+increasing index onto its own index with a fill method is C12's plain forward / backward fill without limit, column by
+column - an independent definition (`Fill.ffill`: one left-to-right pass carrying the last value; no labels, no NaN removal,
+no as-of position).  So under a fill method exactly the NaN cells change, each to the nearest earlier / later value
+(C12 `ffill_keeps`, `ffill_nolimit`, `ffill_leading`), and a model that filled only LACKED timestamps could not satisfy this. -/
+theorem reindex_own_index_ffill (f : Frame) (hs : f.Sorted) (hr : f.Rect) :
+    reindexFrame f f.idx (some .ffill) = f.mapCols (ffill Option.none) := by
+  have h := reindex_ffill f f.idx hs
+  simp only [reindexFrame, Frame.mapCols] at h ⊢
+  congr 1
+  rw [h]
+  apply List.map_congr_left
+  intro c hc
+  rw [ffill_eq_lastObs f.idx c.2 hs (hr c hc)]
+
+theorem reindex_own_index_bfill (f : Frame) (hs : f.Sorted) (hr : f.Rect) :
+    reindexFrame f f.idx (some .bfill) = f.mapCols (bfill Option.none) := by
+  have h := reindex_bfill f f.idx
+  simp only [reindexFrame, Frame.mapCols] at h ⊢
+  congr 1
+  rw [h]
+  apply List.map_congr_left
+  intro c hc
+  rw [bfill_eq_firstObs f.idx c.2 hs (hr c hc)]
+
+/-- ... hence, cell by cell: a non-NaN cell is kept, a NaN cell takes the nearest earlier value with only NaN in between,
+a NaN before the first value stays NaN (C12's theorems, now about `df_reindex`) -/
+theorem reindex_own_index_cells (f : Frame) (hs : f.Sorted) (hr : f.Rect) (j : Nat) (c : String × Col) (hc : f.cols[j]? = some c) :
+    ∃ r, (reindexFrame f f.idx (some .ffill)).cols[j]? = some (c.1, r) ∧ r.length = c.2.length ∧
+      (∀ (i : Nat) (v : Int), c.2[i]? = some (some v) → r[i]? = some (some v)) ∧
+      (∀ (i' i : Nat) (v : Int), i' < i → c.2[i']? = some (some v) → (∀ m : Nat, i' < m → m ≤ i → c.2[m]? = some Option.none) → r[i]? = some (some v)) ∧
+      (∀ i : Nat, (∀ m : Nat, m ≤ i → c.2[m]? = some Option.none) → r[i]? = some Option.none) := by
+  refine ⟨ffill Option.none c.2, ?_, ffill_length _ _, ?_, ?_, ?_⟩
+  · rw [reindex_own_index_ffill f hs hr]; simp [Frame.mapCols, hc]
+  · intro i v h; exact ffillAux_keep _ _ _ _ _ _ h
+  · intro i' i v h1 h2 h3
+    unfold ffill; rw [ffillAux_after _ _ _ c.2 i' i v h1 h2 h3]; simp [within]
+  · intro i h; exact ffill_prefix _ _ i h
+
+
 end Pyg.Props.C03
